@@ -182,12 +182,27 @@ func adversarialBlock(g *azGen, sc azScenario) SBlock {
 			targets = append(targets, c...)
 		}
 	}
+	if len(g.focus) > 0 {
+		targets = g.focus
+	}
+	// shape of the adversarial block: knowledge supplied as facts and rules (default), through
+	// rules only (a block without any fact of its own), or through facts only
+	shape := r.Intn(10)
+	factP, ruleP := 60, 30
+	switch {
+	case shape < 3: // rules only
+		b.Facts = nil
+		factP, ruleP = 0, 75
+	case shape < 5: // facts only
+		b.Rules = nil
+		factP, ruleP = 70, 0
+	}
 	for _, q := range targets {
 		for _, p := range q.Body {
-			if r.Chance(60) {
+			if r.Chance(factP) {
 				b.Facts = append(b.Facts, ground(p)) // the very fact a query is waiting for
 			}
-			if r.Chance(30) && len(sc.Token[0].Facts) > 0 { // a rule deriving it from any authority fact
+			if r.Chance(ruleP) && len(sc.Token[0].Facts) > 0 { // a rule deriving it from any authority fact
 				src := sc.Token[0].Facts[r.Intn(len(sc.Token[0].Facts))]
 				body := SPred{Name: src.Name}
 				for i := range src.Terms {
@@ -359,10 +374,47 @@ func runC03(res *Result, rng *RNG, tier string, outDir string) {
 			sc.Ops = append(sc.Ops, azOp{Kind: "query", Rule: g.pg.query(false)})
 		}
 		k := 1 + r.Intn(len(sc.Token)-1)
+		insertMode := r.Chance(35)
+		if r.Chance(40) {
+			// aim at the checks of the block that will FOLLOW the changed one
+			nxt := k
+			if !insertMode {
+				nxt = k + 1
+			}
+			if nxt < len(sc.Token) {
+				for _, c := range sc.Token[nxt].Checks {
+					g.focus = append(g.focus, c...)
+				}
+			}
+		}
 		adv := adversarialBlock(g, sc)
+		// probes: every OTHER later block gets checks that ask for exactly what the changed
+		// block supplies or derives; their outcome must not depend on the changed block
+		{
+			var probes []SPred
+			for _, f := range adv.Facts {
+				probes = append(probes, f)
+			}
+			for _, ru := range adv.Rules {
+				probes = append(probes, ru.Head)
+			}
+			toks := append([]SBlock{}, sc.Token...)
+			for j := 1; j < len(toks) && len(probes) > 0; j++ {
+				if j == k && !insertMode {
+					continue
+				}
+				blk := toks[j]
+				blk.Checks = append([]SCheck{}, blk.Checks...)
+				for c := 0; c < 2; c++ {
+					pr := probes[r.Intn(len(probes))]
+					blk.Checks = append(blk.Checks, SCheck{SRule{Head: SPred{Name: "query"}, Body: []SPred{pr}}})
+				}
+				toks[j] = blk
+			}
+			sc.Token = toks
+		}
 		variant := sc
 		variant.Token = append([]SBlock{}, sc.Token...)
-		insertMode := r.Chance(35)
 		if insertMode {
 			adv.Checks = nil
 			variant.Token = append(append(append([]SBlock{}, sc.Token[:k]...), adv), sc.Token[k:]...)
@@ -776,19 +828,72 @@ func runC13(res *Result, rng *RNG, tier string, outDir string) {
 // ---------------- C11: limits, entry points, no stranded goroutines ----------------
 
 func datalogGoroutines() int {
-	buf := make([]byte, 1<<20)
+	n, _ := datalogGoroutineStates()
+	return n
+}
+
+// datalogGoroutineStates counts the goroutines with a frame of the datalog package and, among
+// them, those that are running or runnable (i.e. not blocked).
+func datalogGoroutineStates() (total, active int) {
+	buf := make([]byte, 4<<20)
 	n := runtime.Stack(buf, true)
-	cnt := 0
 	for _, g := range strings.Split(string(buf[:n]), "\n\n") {
-		if strings.Contains(g, "biscuit-go/v2/datalog.") {
-			cnt++
+		if !strings.Contains(g, "biscuit-go/v2/datalog.") {
+			continue
+		}
+		total++
+		hdr := g
+		if i := strings.Index(g, "\n"); i >= 0 {
+			hdr = g[:i]
+		}
+		if strings.Contains(hdr, "[running") || strings.Contains(hdr, "[runnable") {
+			active++
 		}
 	}
-	return cnt
+	return
+}
+
+// strandedGoroutines decides "stays blocked forever" as well as an observer can: it polls until
+// the census is back to base; once `patience` has passed it looks at the states: if in three
+// samples 200 ms apart none of the remaining datalog goroutines is running or runnable they are
+// blocked on each other or on nobody (stranded) and their number is returned; while some of them
+// still compute it keeps waiting (up to a cap, then gives the benefit of the doubt).
+func strandedGoroutines(res *Result, base int, patience time.Duration) int {
+	start := time.Now()
+	for {
+		total, _ := datalogGoroutineStates()
+		if total-base <= 0 {
+			return 0
+		}
+		el := time.Since(start)
+		if el > patience {
+			quiet := true
+			for k := 0; k < 3; k++ {
+				t, a := datalogGoroutineStates()
+				if t-base <= 0 {
+					return 0
+				}
+				if a > 0 {
+					quiet = false
+					break
+				}
+				time.Sleep(200 * time.Millisecond)
+			}
+			if quiet {
+				t, _ := datalogGoroutineStates()
+				return t - base
+			}
+			if el > 180*time.Second {
+				res.Dist("census:still-computing-at-cap")
+				return 0
+			}
+		}
+		time.Sleep(50 * time.Millisecond)
+	}
 }
 
 func runC11(res *Result, rng *RNG, tier string, outDir string) {
-	res.Rule = "(a) programs of every outcome class (fixpoint reached, fact limit, iteration limit, ill-typed expression, division by zero, invalid rule with 0/1/>=2 matches) x limit grids placed just below / at / above the measured need, through Authorize; (b) both entry points (AuthorizerFor, Authorizer) x option lists: the limits in force (world and base world, before and after Reset) must equal the options supplied; (c) goroutine census (runtime.Stack filtered to datalog frames) 150 ms after every evaluation, any outcome: must be 0; a slow program under a 30 ms maxDuration must report the timeout error. Non-trivial = the run hits a limit, an error, or needs >= 2 rounds; distinct by canonical text."
+	res.Rule = "(a) programs of every outcome class (fixpoint reached, fact limit, iteration limit, ill-typed expression, division by zero, invalid rule with 0/1/>=2 matches) x limit grids placed just below / at / above the measured need, through Authorize; (b) both entry points (AuthorizerFor, Authorizer) x option lists: the limits in force (world and base world, before and after Reset) must equal the options supplied; (c) goroutine census (runtime.Stack filtered to datalog frames) after every evaluation, any outcome: must return to 0; a goroutine counts as stranded only when, after 2 s, none of the remaining datalog goroutines is running or runnable in three samples (a goroutine that still computes, or is slow to be scheduled, is not blocked); a slow program under a 10 ms maxDuration must report the timeout error. Non-trivial = the run hits a limit, an error, or needs >= 2 rounds; distinct by canonical text."
 	n := 250
 	if tier == "thorough" {
 		n = 2500
@@ -877,9 +982,8 @@ func runC11(res *Result, rng *RNG, tier string, outDir string) {
 		// (c) census
 		time.Sleep(time.Duration(2+len(sc.Token)) * time.Millisecond)
 		if g := datalogGoroutines() - base; g != 0 {
-			time.Sleep(150 * time.Millisecond)
-			if g = datalogGoroutines() - base; g != 0 {
-				res.Violate("stranded-goroutine:"+strings.SplitN(v.Class, ":", 2)[0], fmt.Sprintf("%d goroutine(s) of the datalog package still alive 150 ms after Authorize returned %s", g, v.Class), rep)
+			if g = strandedGoroutines(res, base, 2*time.Second); g != 0 {
+				res.Violate("stranded-goroutine:"+strings.SplitN(v.Class, ":", 2)[0], fmt.Sprintf("%d goroutine(s) of the datalog package still alive 2 s after Authorize returned %s", g, v.Class), rep)
 				base = datalogGoroutines()
 			}
 		}
@@ -927,8 +1031,7 @@ func runC11(res *Result, rng *RNG, tier string, outDir string) {
 						res.Dist("census:" + runErrClass(err))
 						time.Sleep(3 * time.Millisecond)
 						if g := datalogGoroutines() - base; g != 0 {
-							time.Sleep(150 * time.Millisecond)
-							if g = datalogGoroutines() - base; g != 0 {
+							if g = strandedGoroutines(res, base, 2*time.Second); g != 0 {
 								res.Violate("stranded-goroutine:"+runErrClass(err), fmt.Sprintf("%d goroutine(s) left blocked after World.Run / QueryRule returned %v", g, err),
 									map[string]interface{}{"rule": rule.String(), "facts": fmt.Sprint(vals)})
 								base = datalogGoroutines()
@@ -942,7 +1045,7 @@ func runC11(res *Result, rng *RNG, tier string, outDir string) {
 	// timeout: a cross product that takes far longer than 30 ms
 	{
 		syms := &datalog.SymbolTable{}
-		w := datalog.NewWorld(datalog.WithMaxFacts(10000000), datalog.WithMaxIterations(1000), datalog.WithMaxDuration(30*time.Millisecond))
+		w := datalog.NewWorld(datalog.WithMaxFacts(10000000), datalog.WithMaxIterations(1000), datalog.WithMaxDuration(10*time.Millisecond))
 		for j := 0; j < 40; j++ {
 			w.AddFact(datalog.Fact{Predicate: SPred{Name: "d", Terms: []STerm{aInt(int64(j))}}.toDatalog(syms)})
 		}
@@ -954,17 +1057,14 @@ func runC11(res *Result, rng *RNG, tier string, outDir string) {
 		res.Count("timeout", true)
 		res.Dist("timeout:" + runErrClass(err))
 		if !errors.Is(err, datalog.ErrWorldRunLimitTimeout) {
-			res.Violate("timeout-not-reported", fmt.Sprintf("64000-fact cross product under maxDuration 30ms returned %v after %v", err, el), map[string]interface{}{"rule": cross.String()})
-		} else if el > 1500*time.Millisecond {
-			res.Violate("timeout-late", fmt.Sprintf("timeout reported after %v for maxDuration 30ms", el), map[string]interface{}{"rule": cross.String()})
+			res.Violate("timeout-not-reported", fmt.Sprintf("64000-fact cross product under maxDuration 10ms returned %v after %v", err, el), map[string]interface{}{"rule": cross.String()})
+		} else if el > 5*time.Second {
+			res.Violate("timeout-late", fmt.Sprintf("timeout reported after %v for maxDuration 10ms", el), map[string]interface{}{"rule": cross.String()})
 		}
-		// the worker finishes its current rule application and exits: wait for it
-		deadline := time.Now().Add(60 * time.Second)
-		for datalogGoroutines()-base != 0 && time.Now().Before(deadline) {
-			time.Sleep(100 * time.Millisecond)
-		}
-		if g := datalogGoroutines() - base; g != 0 {
-			res.Violate("stranded-goroutine:timeout", fmt.Sprintf("%d goroutine(s) still alive 60 s after a timed-out Run", g), map[string]interface{}{"rule": cross.String()})
+		// the worker finishes its current rule application and exits: wait for it (it is not
+		// blocked, it computes; only goroutines that are blocked with nobody to wake them count)
+		if g := strandedGoroutines(res, base, 20*time.Second); g != 0 {
+			res.Violate("stranded-goroutine:timeout", fmt.Sprintf("%d goroutine(s) blocked for ever after a timed-out Run", g), map[string]interface{}{"rule": cross.String()})
 		}
 	}
 	sort.Strings(cs.descs[:0])
